@@ -47,7 +47,53 @@ SEM = {
 
 def _mlir_ty(t):
     from xdsl.dialects.builtin import Float32Type, IndexType, IntegerType
-    return {"i32": IntegerType(32), "i64": IntegerType(64), "f32": Float32Type(), "index": IndexType()}[t[1]]
+    return {"i32": IntegerType(32), "i64": IntegerType(64), "f32": Float32Type(), "index": IndexType(),
+            "i1": IntegerType(1)}[t[1]]
+
+
+# operations with attributes: an op key is the name, or [name, attribute text]
+I1 = ["IntegerType", "i1"]
+CMPI_PREDS = ["eq", "ne", "slt", "sle", "sgt", "sge", "ult", "ule", "ugt", "uge"]
+
+
+def op_name(key):
+    return key if isinstance(key, str) else key[0]
+
+
+def op_attr(key):
+    return "" if isinstance(key, str) else key[1]
+
+
+def build_op(key, operands):
+    """a real arith op for an op key"""
+    from xdsl.dialects import arith
+    from xdsl.dialects.builtin import IntegerAttr, IntegerType
+    name = op_name(key)
+    if name == "arith.cmpi":
+        return arith.CmpiOp(operands[0], operands[1], op_attr(key))
+    if name == "arith.constant":
+        return arith.ConstantOp(IntegerAttr(int(op_attr(key)), IntegerType(32)))
+    if name == "arith.select":
+        return arith.SelectOp(*operands)
+    if name == "arith.negf":
+        return arith.NegfOp(operands[0])
+    return _op_cls(name)(*operands)
+
+
+def op_key(op):
+    """op key of a real operation (what the model calls OpCode)"""
+    from xdsl.dialects import arith
+    if isinstance(op, arith.CmpiOp):
+        return [op.name, CMPI_PREDS[op.predicate.value.data]]
+    if isinstance(op, arith.ConstantOp):
+        return [op.name, str(op.value.value.data)]
+    return op.name
+
+
+def _cmpi(pred, a, b):
+    sa, sb = _s32(a), _s32(b)
+    return int({"eq": a == b, "ne": a != b, "slt": sa < sb, "sle": sa <= sb, "sgt": sa > sb, "sge": sa >= sb,
+                "ult": a < b, "ule": a <= b, "ugt": a > b, "uge": a >= b}[pred])
 
 
 def _op_cls(name):
@@ -74,7 +120,7 @@ def build_generic(body):
         return blk.args[s[1]] if s[0] == "a" else res[s[1]]
 
     for name, rty, srcs in body["ops"]:
-        op = _op_cls(name)(*[get(s) for s in srcs])
+        op = build_op(name, [get(s) for s in srcs])
         assert [op.results[0].type] == [_mlir_ty(rty)], "generator bug: result type"
         blk.add_op(op)
         res.append(op.results[0])
@@ -85,6 +131,28 @@ def build_generic(body):
                            [linalg.IteratorTypeAttr.parallel()])
     mod = builtin.ModuleOp([bufs, gen])
     return mod, gen
+
+
+def run_encode_pass(bodies, accs):
+    """ONE module with all the linalg.generic ops (generic i tagged phs_acc = @accs[i]), the real `phs-encode`
+    pass run on it; returns {acc name: the phs.pe the pass left in the module}"""
+    from snaxc.dialects import phs
+    from snaxc.transforms.phs.encode import PhsEncodePass
+    from xdsl.context import Context
+    from xdsl.dialects import builtin
+    from xdsl.dialects.builtin import SymbolRefAttr
+    ops = []
+    for b, a in zip(bodies, accs):
+        mod, gen = build_generic(b)
+        for o in list(mod.body.block.ops):
+            o.detach()
+            ops.append(o)
+        if a is not None:  # an untagged generic is none of the pass's business
+            gen.attributes["phs_acc"] = SymbolRefAttr(a)
+    module = builtin.ModuleOp(ops)
+    PhsEncodePass().apply(Context(), module)
+    module.verify()
+    return {o.name_prop.data: o for o in module.body.block.ops if isinstance(o, phs.PEOp)}, module
 
 
 def real_encode(body, name="acc"):
@@ -238,7 +306,7 @@ def pe_json(pe):
                 wiring.append(x.index if isinstance(x, BlockArgument) and x.owner is r.block else -1)
             if len(r.block.args) != len(c.data_operands):
                 wiring.append(-2)
-            regs.append([inner.name, wiring])
+            regs.append([op_key(inner), wiring])
         nodes.append({"id": c.name_prop.data, "ops": regs, "operands": [src(v) for v in c.data_operands],
                       "sw": sw_index(c.switch), "res_ty": ty_json(c.results[0].type)})
     switches = []
@@ -314,7 +382,7 @@ def eval_pe(pe, data, switches, sem):
                 if not (isinstance(x, BlockArgument) and x.owner is rb):
                     raise Invalid("region operation reads something else than its block arguments")
                 vs.append(val(opnds[x.index]))
-            r = sem(inner.name, vs)
+            r = sem(op_key(inner), vs)
         else:
             raise Invalid(f"unexpected op {o.name}")
         busy.discard(k)
@@ -385,7 +453,16 @@ def concrete_inputs(sig, rnd):
     return pts
 
 
-def conc_sem(name, vs):
+def conc_sem(key, vs):
+    name = op_name(key)
+    if name == "arith.cmpi":
+        return _cmpi(op_attr(key), vs[0], vs[1])
+    if name == "arith.constant":
+        return int(op_attr(key)) & M32
+    if name == "arith.select":
+        return vs[1] if vs[0] else vs[2]
+    if name == "arith.negf":
+        return -vs[0]
     return SEM[name](*vs)
 
 
@@ -620,13 +697,95 @@ def gen_malformed(rng):
 
 
 def well_typed(body):
-    """the generator only emits bodies whose ops read operands of their own type"""
-    for j, (name, rty, srcs) in enumerate(body["ops"]):
-        for s in srcs:
-            t = body["arg_tys"][s[1]] if s[0] == "a" else body["ops"][s[1]][1]
-            if t != rty:
+    """the generator only emits bodies whose ops read operands of the types their class asks for"""
+    for j, (key, rty, srcs) in enumerate(body["ops"]):
+        tys = [body["arg_tys"][s[1]] if s[0] == "a" else body["ops"][s[1]][1] for s in srcs]
+        name = op_name(key)
+        if name == "arith.cmpi":
+            ok = len(tys) == 2 and tys[0] == tys[1] == I32 and rty == I1
+        elif name == "arith.select":
+            ok = len(tys) == 3 and tys[0] == I1 and tys[1] == tys[2] == rty
+        elif name == "arith.constant":
+            ok = not tys and rty == I32
+        elif name == "arith.negf":
+            ok = tys == [F32] and rty == F32
+        else:
+            ok = len(tys) == 2 and all(t == rty for t in tys)
+        if not ok:
+            return False
+    return True
+
+
+def strip_attrs(term):
+    if isinstance(term, list) and len(term) == 2 and isinstance(term[1], list) and term[0] != "i":
+        return [op_name(term[0]), [strip_attrs(a) for a in term[1]]]
+    return term
+
+
+def attr_clause(bodies):
+    """clause of C20_history_partial: among the operations of these bodies the class determines the operation"""
+    seen = {}
+    for b in bodies:
+        for key, _, _ in b["ops"]:
+            if seen.setdefault(op_name(key), op_attr(key)) != op_attr(key):
                 return False
     return True
+
+
+def gen_pass_case(rng, tier):
+    """a module for the phs-encode pass: the generics of one or two accelerators interleaved"""
+    hists = [gen_history(rng, tier, 8)]
+    if rng.random() < 0.6:
+        hists.append(gen_history(rng, tier, 8))
+    tagged = [(b, f"acc{i}") for i, h in enumerate(hists) for b in h]
+    # interleave, keeping the order inside each accelerator
+    order = []
+    idx = [0] * len(hists)
+    while any(idx[i] < len(h) for i, h in enumerate(hists)):
+        i = rng.choice([i for i, h in enumerate(hists) if idx[i] < len(h)])
+        order.append((hists[i][idx[i]], f"acc{i}"))
+        idx[i] += 1
+    if rng.random() < 0.3:  # an untagged generic somewhere in the module
+        order.insert(rng.randrange(len(order) + 1), (gen_body(rng, [I32, I32, I32], 2), None))
+    return {"kind": "pass", "bodies": [b for b, _ in order], "accs": [a for _, a in order]}
+
+
+def gen_attr_history(rng):
+    """kernels over operations WITH attributes and other arities: arith.cmpi <pred> + arith.select (min / max /
+    clamp-like), in-body arith.constant operands, unary arith.negf. Same or different attributes across the
+    kernels of a history (different ones: finding DC20a)."""
+    nk = rng.choice([2, 2, 3, 4])
+    flavour = rng.choice(["cmp", "cmp", "const", "const", "neg"])
+    same = rng.random() < 0.45
+    bodies = []
+    pred0, c0 = rng.choice(CMPI_PREDS), rng.choice([0, 1, 3, 7, 255])
+    for _ in range(nk):
+        if flavour == "cmp":
+            at = [I32, I32, I32]
+            pred = pred0 if same else rng.choice(CMPI_PREDS)
+            a, b = rng.choice([(["a", 0], ["a", 1]), (["a", 1], ["a", 0])])
+            x, y = rng.choice([(["a", 0], ["a", 1]), (["a", 1], ["a", 0])])
+            ops = [[["arith.cmpi", pred], I1, [a, b]], ["arith.select", I32, [["r", 0], x, y]]]
+            if rng.random() < 0.4:
+                ops.append([rng.choice(INT_OPS), I32, [["r", 1], rng.choice([["a", 0], ["a", 1]])]])
+            bodies.append({"arg_tys": at, "ops": ops, "yield": ["r", len(ops) - 1]})
+        elif flavour == "const":
+            at = [I32, I32, I32]
+            c = c0 if same else rng.choice([0, 1, 3, 7, 255])
+            ops = [[["arith.constant", str(c)], I32, []],
+                   [rng.choice(INT_OPS), I32, rng.choice([[["a", 0], ["r", 0]], [["r", 0], ["a", 0]]])],
+                   [rng.choice(INT_OPS), I32, rng.choice([[["r", 1], ["a", 1]], [["a", 1], ["r", 1]]])]]
+            bodies.append({"arg_tys": at, "ops": ops, "yield": ["r", 2]})
+        else:
+            at = [F32, F32, F32]
+            ops = [["arith.negf", F32, [rng.choice([["a", 0], ["a", 1]])]],
+                   [rng.choice(FLT_OPS), F32, [["r", 0], rng.choice([["a", 0], ["a", 1]])]],
+                   [rng.choice(FLT_OPS), F32, [["r", 1], rng.choice([["a", 0], ["a", 1]])]]]
+            b = {"arg_tys": at, "ops": ops, "yield": ["r", 2]}
+            if used_args(b) != [0, 1]:
+                ops[2][2][1] = ["a", 1] if 1 not in used_args(b) else ["a", 0]
+            bodies.append(b)
+    return {"kind": "attr", "bodies": bodies}
 
 
 class C20(Prop):
@@ -651,8 +810,14 @@ class C20(Prop):
     def cases(self, rng, tier):
         n = 600 if tier == "quick" else 4000
         maxmux = 9 if tier == "quick" else 11
+        # the real phs-encode pass on one module with the generics of one or two accelerators interleaved
+        for i in range(30 if tier == "quick" else 300):
+            yield gen_pass_case(rng, tier)
+        # operations with attributes / other arities (cmpi+select, in-body constants, unary)
+        for i in range(60 if tier == "quick" else 600):
+            yield gen_attr_history(rng)
         # large elements (10..14 muxes), every merged kernel re-decoded after every merge
-        for i in range(40 if tier == "quick" else 300):
+        for i in range(24 if tier == "quick" else 300):
             yield gen_large(rng)
         for i in range(n):
             if rng.random() < 0.1:
@@ -847,7 +1012,50 @@ class C20(Prop):
                 return out
         return out
 
+    def _impl_pass(self, case):
+        pes, module = run_encode_pass(case["bodies"], case["accs"])
+        return {"pes": {a: pe_json(p)[0] for a, p in sorted(pes.items())}}
+
+    def _oracle_pass(self, case):
+        """the element the pass leaves for an accelerator decodes every generic tagged with it to its function, and
+        is what merging those generics alone gives (state carried from one generic of the module to the next)"""
+        from snaxc.phs.decode import decode_abstract_graph
+        pes, module = run_encode_pass(case["bodies"], case["accs"])
+        out = []
+        for acc in sorted({a for a in case["accs"] if a is not None}):
+            if acc not in pes:
+                out.append({"what": f"phs-encode left no phs.pe @{acc} in the module", "finding": None})
+                continue
+            abst = pes[acc]
+            bodies = [b for b, a in zip(case["bodies"], case["accs"]) if a == acc]
+            sig = signature(bodies[0])
+            keep = []
+            alone = real_group_graph(bodies, list(range(len(bodies))), keep)
+            if pe_json(alone)[0] != pe_json(abst)[0]:
+                out.append({"what": f"phs.pe @{acc} after the pass differs from merging its generics alone", "finding": None})
+            for i, b in enumerate(bodies):
+                k, owner = real_encode(b)
+                keep.append(owner)
+                try:
+                    sw = [int(x) for x in decode_abstract_graph(abst, k)]
+                except Exception as e:  # noqa: BLE001
+                    out.append({"what": f"@{acc}: generic {i} is undecodable after the pass: {type(e).__name__}", "finding": None})
+                    continue
+                if len(sw) != abst.get_true_switches():
+                    out.append({"what": f"@{acc}: {len(sw)} values, get_true_switches() = {abst.get_true_switches()}",
+                                "finding": None})
+                    continue
+                try:
+                    got = eval_pe(abst, sym_inputs(len(sig)), full_switches(abst, sw), sym_sem)
+                except Invalid as e:
+                    got = f"invalid: {e}"
+                if got != eval_body(b, sym_inputs(len(sig)), sym_sem):
+                    out.append({"what": f"@{acc}: the element of the pass computes {str(got)[:120]} for generic {i}", "finding": None})
+        return out
+
     def _impl(self, case):
+        if case["kind"] == "pass":
+            return self._impl_pass(case)
         if case["kind"] == "from_ops":
             return self._impl_from_ops(case)
         if case["kind"] == "graphs":
@@ -922,8 +1130,9 @@ class C20(Prop):
                 self_dec = {"sw": [int(x) for x in decode_abstract_graph(abst, abst)]}
             except Exception as e:  # noqa: BLE001
                 self_dec = {"raised": type(e).__name__}
-            out["steps"].append({"pe": pj, "ssa_ok": ssa_ok, "hyp_ok": True, "true": abst.get_true_switches(),
-                                 "dec": decs, "self": self_dec})
+            out["steps"].append({"pe": pj, "ssa_ok": ssa_ok, "hyp_ok": True,
+                                 "attr_clause": attr_clause([bodies[i] for i in merged_so_far]),
+                                 "true": abst.get_true_switches(), "dec": decs, "self": self_dec})
         return out
 
     # -- the model ----------------------------------------------------------------------------
@@ -933,6 +1142,9 @@ class C20(Prop):
                 [name, [case["arg_tys"][s[1]] for s in srcs], rty] for name, rty, srcs in case["ops"]]}}]
         if case["kind"] == "graphs":
             return [{"fn": "c20.graphs", "args": {"graphs": case["graphs"], "plan": case["plan"]}}]
+        if case["kind"] == "pass":
+            return [{"fn": "c20.history", "args": {"merged_only": True, "bodies": [
+                b for b, a in zip(case["bodies"], case["accs"]) if a == acc]}} for acc in sorted({a for a in case["accs"] if a is not None})]
         if not all(well_typed(b) for b in case["bodies"]):
             return []
         args = {"bodies": case["bodies"]}
@@ -943,6 +1155,14 @@ class C20(Prop):
         return [{"fn": "c20.history", "args": args}]
 
     def model(self, case, answers):
+        if case["kind"] == "pass":
+            pes = {}
+            for acc, a in zip(sorted({a for a in case["accs"] if a is not None}), answers):
+                if "ok" not in a:
+                    return {"model_error": a.get("err")}
+                last = a["ok"]["steps"][-1]
+                pes[acc] = last.get("pe", last)
+            return {"pes": pes}
         if not answers:
             return {"invalid_input": "ill-typed body"}
         a = answers[0]
@@ -972,6 +1192,8 @@ class C20(Prop):
         """Runs the real code again (fresh objects) and evaluates the property with the PE interpreter."""
         from snaxc.phs.combine import append_to_abstract_graph
         from snaxc.phs.decode import decode_abstract_graph
+        if case["kind"] == "pass":
+            return self._oracle_pass(case)
         if case["kind"] == "from_ops":
             return self._oracle_from_ops(case)
         if case["kind"] == "graphs":
@@ -1040,8 +1262,13 @@ class C20(Prop):
                     out.append({"what": f"kernel {i} after {len(merged)} merges: decoded configuration is not evaluable ({e})",
                                 "finding": None})
                     continue
-                if got == eval_body(bodies[i], sym_inputs(len(sig)), sym_sem):
+                want_t = eval_body(bodies[i], sym_inputs(len(sig)), sym_sem)
+                if got == want_t:
                     continue
+                # known finding DC20a: the element computes the kernel's term up to the ATTRIBUTES of its operations,
+                # and the merged kernels use one operation class with different attributes (attr_clause fails)
+                fid = "DC20a" if (not attr_clause([bodies[q] for q in merged])
+                                  and strip_attrs(got) == strip_attrs(want_t)) else None
                 # terms differ: decide on concrete inputs
                 if pts is None:
                     pts = concrete_inputs(sig, rnd)
@@ -1053,9 +1280,9 @@ class C20(Prop):
                     w = eval_body(bodies[i], p, conc_sem)
                     if g_ != w:
                         out.append({"what": f"kernel {i} after {len(merged)} merges: merged element computes {g_} instead of {w} "
-                                            f"on inputs {[str(x) for x in p]} under switches {full}", "finding": None})
+                                            f"on inputs {[str(x) for x in p]} under switches {full}", "finding": fid})
                         break
-            if out:
+            if any(v["finding"] is None for v in out):
                 return out
         # hardware side: number of switch fields reported by the accelerator == number of values produced
         try:
@@ -1145,6 +1372,8 @@ class C20(Prop):
         return out
 
     def nontrivial(self, case, impl_out):
+        if case["kind"] == "pass":
+            return isinstance(impl_out, dict) and len(case["bodies"]) > 1
         if case["kind"] == "from_ops":
             return isinstance(impl_out, dict) and len(impl_out.get("terms", [])) > 1
         if case["kind"] == "graphs":
@@ -1158,6 +1387,8 @@ class C20(Prop):
 
     def stats_key(self, case, impl_out):
         k = case.get("kind", "case")
+        if k == "pass":
+            return f"{k}:accs={len({a for a in case['accs'] if a})}:n={len(case['bodies'])}"
         if k == "from_ops":
             return f"{k}:raised:{impl_out['raised']}" if "raised" in impl_out else f"{k}:n={len(case['ops'])}"
         if k == "graphs":
@@ -1173,6 +1404,11 @@ class C20(Prop):
         return f"{k}:no-steps"
 
     def shrink(self, case):
+        if case["kind"] == "pass":
+            for i in range(len(case["bodies"])):
+                if len(case["bodies"]) > 1:
+                    yield dict(case, bodies=case["bodies"][:i] + case["bodies"][i + 1:], accs=case["accs"][:i] + case["accs"][i + 1:])
+            return
         if case["kind"] == "graphs":
             for i in range(1, len(case["plan"])):
                 yield dict(case, plan=case["plan"][:i] + case["plan"][i + 1:])
